@@ -35,4 +35,36 @@ PROPS = {
              'hash(LP signature x configuration key); non-trivial = solver returned a definite status',
         assumptions=COMMON_ASSUME,
     ),
+    'C04': dict(
+        level='exploration',
+        level_text='At every point of seeded solve/abort/setBasis histories where hasBasis() holds, the reported basis is checked against the '
+                   'exact model: one basic variable per row, bound-consistent nonbasic statuses, agreement of the three query styles, exact '
+                   'nonsingularity of solve-produced bases (rational elimination), setBasis/getBasis round trip, and reuse of the basis in the '
+                   'same and in a new solver object. Sampling of inputs x configurations x history points.',
+        level_note='trusts GMP arithmetic; reuse is compared with a from-scratch solve of the same configuration and skipped when that solve '
+                   'itself contradicts certified truth (that is C01/C02 territory)',
+        technique='runtime monitoring: basis-invariant oracle with exact rank test at hooked history points, under ASan+UBSan',
+        stages=two_flavour('h_solve', 1200, 5000, 25000, 120000),
+        minima=lambda t: {'c04.basis_checked': 500, 'c04.setbasis_roundtrip': 300, 'c04.reuse.new-object': 200, 'c04.reuse.same-object': 200,
+                          'c04.setbasis_fuzz_regular': 50, 'basis.exact_regularity_checks': 500},
+        eval_counter='cases', distinct_set='nontrivial',
+        rule='case k -> (LP family, seeded LP, configuration, scenario in {solve, aborted solve, user basis}); distinct = hash(LP signature x '
+             'configuration x scenario); non-trivial = a basis was available and checked',
+        assumptions=COMMON_ASSUME,
+    ),
+    'C05': dict(
+        level='exploration',
+        level_text='For seeded bases (after solves of every status, aborted solves and setBasis with random exactly-regular bases) the inverse '
+                   'rows/columns, solve and multiply calls are compared in exact arithmetic with the basis matrix assembled from the user LP '
+                   '(or the internal scaled columns for unscale=false), crossing representation x scaler x persistent scaling x unscale; '
+                   'output buffers are canary-padded and sparse index lists compared with the nonzero pattern. Sampling.',
+        level_note='residual thresholds 1e-8(1+||B||*||result||); trusts GMP; exactly singular user bases are skipped',
+        technique='runtime monitoring: exact residual oracle B*B^-1=I on API outputs, canary buffers, under ASan+UBSan',
+        stages=two_flavour('h_solve', 1200, 5000, 20000, 60000),
+        minima=lambda t: {'c05.bases_with_nonzero_scale_exponent': 50, 'c05.sparse_index_checked': 200, 'cases': 1000},
+        eval_counter='cases', distinct_set='nontrivial',
+        rule='case k -> (LP family incl. badly-scaled, representation = (k/8)%3, scaler = (k/24)%7, persistent scaling = (k/168)%2, other '
+             'parameters random, scenario); distinct = hash(LP signature x configuration x scenario)',
+        assumptions=COMMON_ASSUME,
+    ),
 }
